@@ -81,7 +81,7 @@ fn run_small(rep: &mut Report, rng: &mut Rng, thorough: bool) {
     let reference = match enc_split(&cfg, Front::Sample, &pcm, &[]) {
         Ok(b) => b,
         Err(e) => {
-            rep.violation("encode-error", format!("reference-encode-error:{}", err_name(&e.err)), format!("{e:?}"), replay_json(&cfg, Front::Sample, &pcm, &[]));
+            rep.violation("encode-error", format!("reference-encode-error:{}", err_name(&e.err)), crate::api::show(&e), replay_json(&cfg, Front::Sample, &pcm, &[]));
             return;
         }
     };
@@ -122,7 +122,7 @@ fn run_large(rep: &mut Report, rng: &mut Rng) {
     let reference = match enc_split(&cfg, Front::Sample, &pcm, &[]) {
         Ok(b) => b,
         Err(e) => {
-            rep.violation("encode-error", format!("reference-encode-error:{}", err_name(&e.err)), format!("{e:?}"), replay_json(&cfg, Front::Sample, &pcm, &[]));
+            rep.violation("encode-error", format!("reference-encode-error:{}", err_name(&e.err)), crate::api::show(&e), replay_json(&cfg, Front::Sample, &pcm, &[]));
             return;
         }
     };
@@ -189,17 +189,17 @@ fn run_partial(rep: &mut Report, rng: &mut Rng) {
                 use std::io::Write;
                 let r = if be {
                     flac_codec::encode::FlacByteWriter::endian(&mut c, flac_codec::byteorder::BigEndian, opts, cfg.rate, cfg.bps, cfg.channels, None)
-                        .map_err(|e| EncErr { stage: "new", err: format!("{e:?}") })
+                        .map_err(|e| EncErr { stage: "new", err: crate::api::show(&e) })
                         .and_then(|mut w| {
                             w.write_all(&bytes).map_err(|e| EncErr { stage: "write", err: format!("Io({e:?})") })?;
-                            w.finalize().map_err(|e| EncErr { stage: "finalize", err: format!("{e:?}") })
+                            w.finalize().map_err(|e| EncErr { stage: "finalize", err: crate::api::show(&e) })
                         })
                 } else {
                     flac_codec::encode::FlacByteWriter::endian(&mut c, flac_codec::byteorder::LittleEndian, opts, cfg.rate, cfg.bps, cfg.channels, None)
-                        .map_err(|e| EncErr { stage: "new", err: format!("{e:?}") })
+                        .map_err(|e| EncErr { stage: "new", err: crate::api::show(&e) })
                         .and_then(|mut w| {
                             w.write_all(&bytes).map_err(|e| EncErr { stage: "write", err: format!("Io({e:?})") })?;
-                            w.finalize().map_err(|e| EncErr { stage: "finalize", err: format!("{e:?}") })
+                            w.finalize().map_err(|e| EncErr { stage: "finalize", err: crate::api::show(&e) })
                         })
                 };
                 r.map(|()| c.into_inner())
